@@ -3,7 +3,7 @@
 spec = {"tasks": [task...], "ext": [[task_index, output_name], ...]}
 task = {"name": str, "outs": [str...], "gpu": bool, "args": [slot...], "kwargs": {param: slot},
         "placeholders": bool}
-slot = {"s": <static json value>} | {"e": [source_task_index, output_name]}
+slot = {"s": <static json value>} | {"e": [source_task_index, output_name]} | {"e": [...], "d": <static default>}  (kwargs only)
 
 Tasks are listed in a topological order (an edge always goes from a lower to a higher index); task *names*
 are assigned through a generated permutation so that name order differs from topological order.
@@ -66,7 +66,7 @@ def task_name(i: int) -> str:
 
 @st.composite
 def job_specs(draw, max_tasks: int = 14, min_tasks: int = 0, max_outs: int = 4, gpu: bool = True,
-              ext: str = "any", shape_bias: bool = True) -> dict:
+              ext: str = "any", shape_bias: bool = True, with_serdes: bool = False) -> dict:
     n = draw(st.integers(min_tasks, max_tasks))
     perm = draw(st.permutations(list(range(n)))) if n else []
     padded = draw(st.booleans())  # "t2" vs "t02": with unpadded names string order and numeric order of task names differ
@@ -98,6 +98,11 @@ def job_specs(draw, max_tasks: int = 14, min_tasks: int = 0, max_outs: int = 4, 
         args = [slot() for _ in range(nargs)]
         kws = draw(st.lists(st.sampled_from(_kwnames), min_size=nkw, max_size=nkw, unique=True))
         kwargs = {k: slot() for k in kws}
+        for k, sl in kwargs.items():
+            # a keyword parameter fed by an edge may also carry a static default (TaskBuilder.from_callable copies signature defaults
+            # into static_input_kw): the upstream value must win
+            if "e" in sl and draw(st.booleans()):
+                sl["d"] = draw(_static)
         tasks.append({
             "name": task_name(perm[i]) if padded else f"t{perm[i]}",
             "outs": outs,
@@ -120,7 +125,13 @@ def job_specs(draw, max_tasks: int = 14, min_tasks: int = 0, max_outs: int = 4, 
             ext_l = draw(st.lists(st.sampled_from(all_ds), min_size=1, max_size=2, unique_by=lambda d: tuple(d)))
         else:
             ext_l = draw(st.lists(st.sampled_from(all_ds), max_size=len(all_ds), unique_by=lambda d: tuple(d)))
-    return {"tasks": tasks, "ext": ext_l}
+    spec = {"tasks": tasks, "ext": ext_l, "ext_mode": draw(st.sampled_from(["ctor", "ctor", "assign", "inplace"]))}
+    if with_serdes:
+        # custom serde registrations (type name -> (ser function, des function)); only the encodings carry them (C17)
+        spec["serdes"] = draw(st.dictionaries(st.sampled_from(["pkg.T", "numpy.ndarray", "a.b.C", ""]),
+                                              st.tuples(st.sampled_from(["m.ser", "x.y.dumps", ""]), st.sampled_from(["m.des", "x.y.loads"])).map(list),
+                                              max_size=2))
+    return spec
 
 
 def spec_edges(spec: dict) -> list[tuple[int, str, int, Any]]:
@@ -155,6 +166,8 @@ def build_job(spec: dict, fn_factory=make_fn, faults: dict | None = None) -> Job
             if "e" in s:
                 edges.append(Task2TaskEdge(source=DatasetId(names[s["e"][0]], s["e"][1]), sink_task=t["name"],
                                            sink_input_kw=k, sink_input_ps=None))
+                if "d" in s:
+                    kw[k] = s["d"]  # static default of a parameter that is also fed by an edge
             else:
                 kw[k] = s["s"]
         fn = fn_factory(t["name"], len(t["outs"])) if faults is None else fn_factory(t["name"], len(t["outs"]), faults.get(t["name"]))
@@ -170,7 +183,21 @@ def build_job(spec: dict, fn_factory=make_fn, faults: dict | None = None) -> Job
             static_input_ps=ps,
         )
     ext = [DatasetId(names[i], o) for i, o in spec["ext"]]
-    return JobInstance(tasks=tasks, edges=edges, ext_outputs=ext)
+    mode = spec.get("ext_mode", "ctor")
+    serdes = {k: (v[0], v[1]) for k, v in spec.get("serdes", {}).items()}
+    if mode == "ctor":
+        return JobInstance(tasks=tasks, edges=edges, ext_outputs=ext, **({"serdes": serdes} if serdes else {}))
+    # the requested outputs are often set on an already built instance (JobBuilder.build() returns one without any)
+    job = JobInstance(tasks=tasks, edges=edges)
+    if mode == "assign":
+        job.ext_outputs = ext
+    else:
+        job.ext_outputs.extend(ext)
+    if serdes and mode == "assign":
+        job.serdes = serdes
+    elif serdes:
+        job.serdes.update(serdes)
+    return job
 
 
 def spec_stats(spec: dict) -> dict:
